@@ -49,7 +49,7 @@ inductive HistOp where
   | crew (id : Nat) (i : Nat)
   deriving Repr
 
-def SWAP_FUEL : Nat := 100000
+def SWAP_FUEL : Nat := 4000000   -- ≥ 2 × (887 272 tick groups of size 1 + crossings): an adaptive-fee swap with group size 1 takes one iteration per tick
 
 /-- one operation; returns the new state and the op-specific outputs -/
 def histStep (s : HistState) (op : HistOp) : R (HistState × List Nat) :=
